@@ -195,11 +195,42 @@ func (el *eventloop) enroll(c net.Conn, addr net.Addr, ctx any) (resCh chan Regi
 			resCh <- RegisteredResult{Err: err}
 			return
 		}
-		<-connOpened
+		if err := el.awaitRegistration(gc, connOpened); err != nil {
+			resCh <- RegisteredResult{Err: err}
+			return
+		}
 
 		resCh <- RegisteredResult{Conn: gc}
 	})
 	return
+}
+
+// awaitRegistration waits until the event-loop has carried out the queued registration of c.
+// The event-loop may exit before it gets to the request, then nobody will ever pick c up,
+// so once the engine has shut down the pending connection is discarded here and the caller
+// gets an error instead of waiting forever with a leaked file descriptor.
+func (el *eventloop) awaitRegistration(c *conn, registered <-chan struct{}) error {
+	ticker := time.NewTicker(shutdownPollInterval)
+	defer ticker.Stop()
+	for {
+		select {
+		case <-registered:
+			return nil
+		case <-ticker.C:
+			if !el.engine.isShutdown() {
+				continue
+			}
+			// All event-loops have exited by now, check one last time.
+			select {
+			case <-registered:
+				return nil
+			default:
+			}
+			_ = unix.Close(c.fd)
+			c.release()
+			return errorx.ErrEngineInShutdown
+		}
+	}
 }
 
 func (el *eventloop) register(a any) error {
